@@ -148,8 +148,16 @@ struct C12 : Prop {
 					// does not name, empty / repeated address lists ...): out-of-range field values in otherwise perfectly valid traffic
 					J ev1 = api::uplink_event(r, w, 0);
 					ref::Msg m; m.addr = j_bytes(ev1["node"]); m.seq = r.chance(500) ? 0 : r.byte(); m.type = (uint8_t) ev1.geti("type"); m.data = j_bytes(ev1["data"]);
-					if (r.chance(100)) { std::vector<const cfg::Board *> sa; for (auto &b : w.boards) if (b.present && b.secack()) sa.push_back(&b);
-						if (!sa.empty()) { m.addr = sa[r.below(sa.size())]->addr; m.type = MSG_BM_POSITION; m.data = {r.byte(), r.byte(), r.byte(), r.byte(), r.byte()}; } }
+					// (one in six: an accessory of a configured board reports an error state with an aspect the configuration may not name)
+					if (r.chance(170)) for (auto &b : w.boards) if (b.present && !(b.points_board.empty() && b.signals_board.empty())) {
+						const cfg::BoardAcc &a = !b.points_board.empty() ? b.points_board[r.below(b.points_board.size())] : b.signals_board[r.below(b.signals_board.size())];
+						m.addr = b.addr; m.type = r.chance(800) ? MSG_ACCESSORY_STATE : MSG_ACCESSORY_NOTIFY; m.data = {a.number, r.byte(), (uint8_t) r.range(1, 8), (uint8_t) (r.coin() ? 0x80 : 0x81 + r.below(3)), r.byte()}; break; }
+					bytes = ref::frame_msgs({m}); adv = true; inj = "valid-message-unusual-field-values";
+				} else if (normal && x >= 52 && x < 57) {
+					// a position report from a Secure-ACK board (the receiver answers it itself while the application may be reading the queue)
+					std::vector<const cfg::Board *> sa; for (auto &b : w.boards) if (b.present && b.secack()) sa.push_back(&b);
+					ref::Msg m; m.seq = r.chance(500) ? 0 : r.byte(); m.type = MSG_BM_POSITION; m.data = {r.byte(), r.byte(), r.byte(), r.byte(), r.byte()};
+					m.addr = sa.empty() ? addrs[r.below(addrs.size())] : sa[r.below(sa.size())]->addr;
 					bytes = ref::frame_msgs({m}); adv = true; inj = "valid-message-unusual-field-values";
 				} else if (x < 42) {
 					// oversized CRC-valid frame
